@@ -1,4 +1,6 @@
 import Proofs.WrapMain
+import Proofs.WrapBlock2
+import Proofs.WrapGeom
 /-!
 C07 — side-by-side view: correct panels, fixed geometry, lossless wrapping.
 
@@ -26,7 +28,7 @@ theorem wrap_lossless (cfg : Cfg) (line : List Sec) (lw fill : Nat) (hint : Opti
     (hz : NlZero line) (h : wrapFull cfg line lw fill hint = .ok o) :
     ∃ tail, explode (unwrapOut o) ++ tail = explode line ∧ explodeWidth tail = 0 ∧
       (tail ≠ [] → o.rows.length = o.nSym) := by
-  obtain ⟨st, stop, hl, hr, _, hd, hshape⟩ := wrapFull_spec hz h
+  obtain ⟨st, stop, hl, hr, _, hd, hshape⟩ := wrapFull_spec (fx := currentFixes) hz h
   have htext := hl.text
   cases hshape with
   | plain h0 hs =>
@@ -58,11 +60,13 @@ example : NlZero [(0, [⟨"a", 1⟩, ⟨"日", 2⟩]), (1, [⟨"b", 1⟩, ⟨"\n
 the symbol style holding the left wrap symbol (or the right wrap symbol on the first row when
 the second row is right-aligned): a continued line is visibly marked. -/
 theorem wrap_symbols_present (cfg : Cfg) (line : List Sec) (lw fill : Nat) (hint : Option Nat) (o : Out)
-    (hz : NlZero line) (hs1 : cfg.leftSym.w ≤ 1) (h : wrapFull cfg line lw fill hint = .ok o) :
+    (hz : NlZero line) (hs1 : cfg.leftSym.w ≤ 1)
+    (hfit : currentFixes.forceProgress = true → Fits cfg lw line)
+    (h : wrapFull cfg line lw fill hint = .ok o) :
     ∀ r ∈ o.rows.take o.nSym, ∃ init s, r = init ++ [(symStyleOf fill hint, [s])] ∧
       (s = cfg.leftSym ∨ s = cfg.rightSym) := by
-  obtain ⟨st, stop, hl, hr, hw, hd, hshape⟩ := wrapFull_spec hz h
-  have hrows := (hw hs1).rows
+  obtain ⟨st, stop, hl, hr, hw, hd, hshape⟩ := wrapFull_spec (fx := currentFixes) hz h
+  have hrows := (hw hs1 hfit).rows
   cases hshape with
   | plain h0 hs =>
     intro r hr; simp at hr
@@ -85,18 +89,21 @@ theorem wrap_symbols_present (cfg : Cfg) (line : List Sec) (lw fill : Nat) (hint
 /-! ## Row widths -/
 
 /-- **wrap_row_width.** With wrap symbols of display width ≤ 1 (delta requires width 1):
-every row that ends in a wrap symbol fits the line width; when the loop ended because the
+every row that ends in a wrap symbol fits the line width (once the progress repair is in the
+source: provided every cluster leaves room for the wrap symbol — a wider cluster is then
+placed on a row of its own, which is cut later); when the loop ended because the
 input was used up, *every* row fits; only when the line limit stopped the wrapping can the
 last row (the unwrapped rest, cut later by `truncate_str`) be wider — and then the number of
 rows is exactly the limit. -/
 theorem wrap_row_width (cfg : Cfg) (line : List Sec) (lw fill : Nat) (hint : Option Nat) (o : Out)
     (hz : NlZero line) (hs1 : cfg.leftSym.w ≤ 1) (hs2 : cfg.rightSym.w ≤ cfg.leftSym.w)
+    (hfit : currentFixes.forceProgress = true → Fits cfg lw line)
     (h : wrapFull cfg line lw fill hint = .ok o) :
     (∀ r ∈ o.rows.take o.nSym, rowWidth r ≤ lw) ∧
     (o.stop = .stackEmpty → ∀ r ∈ o.rows, rowWidth r ≤ lw) ∧
     (o.stop = .lineLimit → o.rows.length = effMax cfg lw ∧ o.nSym + 1 = o.rows.length) := by
-  obtain ⟨st, stop, hl, hr, hw, hd, hshape⟩ := wrapFull_spec hz h
-  have hW := hw hs1
+  obtain ⟨st, stop, hl, hr, hw, hd, hshape⟩ := wrapFull_spec (fx := currentFixes) hz h
+  have hW := hw hs1 hfit
   have hrows := hW.rows
   cases hshape with
   | plain h0 hs =>
@@ -147,7 +154,7 @@ at least 2) the loop can only stop because the whole line has been placed. -/
 theorem wrap_unlimited_not_cut (cfg : Cfg) (line : List Sec) (lw fill : Nat) (hint : Option Nat) (o : Out)
     (hz : NlZero line) (hu : effMax cfg lw = 0) (h : wrapFull cfg line lw fill hint = .ok o) :
     o.stop = .stackEmpty := by
-  obtain ⟨st, stop, hl, hr, hw, hd, hshape⟩ := wrapFull_spec hz h
+  obtain ⟨st, stop, hl, hr, hw, hd, hshape⟩ := wrapFull_spec (fx := currentFixes) hz h
   cases hshape with
   | plain h0 hs => rfl
   | dropped h0 hs => rfl
@@ -161,7 +168,7 @@ theorem wrap_unlimited_not_cut (cfg : Cfg) (line : List Sec) (lw fill : Nat) (hi
 theorem wrap_row_count (cfg : Cfg) (line : List Sec) (lw fill : Nat) (hint : Option Nat) (o : Out)
     (hz : NlZero line) (hpos : 0 < effMax cfg lw) (h : wrapFull cfg line lw fill hint = .ok o) :
     o.rows.length ≤ effMax cfg lw := by
-  obtain ⟨st, stop, hl, hr, hw, hd, hshape⟩ := wrapFull_spec hz h
+  obtain ⟨st, stop, hl, hr, hw, hd, hshape⟩ := wrapFull_spec (fx := currentFixes) hz h
   have hcnt := hl.count hpos
   cases hshape with
   | plain h0 hs => simp; omega
@@ -172,19 +179,22 @@ theorem wrap_row_count (cfg : Cfg) (line : List Sec) (lw fill : Nat) (hint : Opt
 
 /-! ## Progress and termination -/
 
-/-- **wrap_progress.** The exact condition for progress. At the start of a row (`len = 0`),
-when the next section has to be split (wrap symbol narrower than the row), the iteration
-consumes at least one cluster **iff** the first cluster leaves room for the wrap symbol:
-`g.w + symbol width ≤ line_width`. -/
-theorem wrap_progress (cfg : Cfg) (sym lw : Nat) (st : St) (style : Nat) (g : G) (gs : List G)
+/-- **wrap_progress.** The exact condition for progress on the unrepaired code. At the start
+of a row (`len = 0`), when the next section has to be split (wrap symbol narrower than the
+row), the iteration consumes at least one cluster **iff** the first cluster leaves room for
+the wrap symbol: `g.w + symbol width ≤ line_width`. -/
+theorem wrap_progress (fx : Fixes) (hfx : fx.forceProgress = false)
+    (cfg : Cfg) (sym lw : Nat) (st : St) (style : Nat) (g : G) (gs : List G)
     (rest : List Sec) (hs : st.stack = (style, g :: gs) :: rest) (h0 : st.len = 0)
     (hl : limitReached (effMax cfg lw) st.result.length = false)
     (hsym : cfg.leftSym.w < lw)
     (hge : lw ≤ gsWidth (g :: gs))
-    (hnf : ¬ (gsWidth (g :: gs) = lw ∧ (rest = [] ∨ isLoneNl rest = true))) :
-    ∃ st', step cfg sym lw st = .next st' ∧
+    (hnf : ¬ (gsWidth (g :: gs) = lw ∧ PerfectRest fx rest)) :
+    ∃ st', step fx cfg sym lw st = .next st' ∧
       (clusterCount st'.stack < clusterCount st.stack ↔ g.w + cfg.leftSym.w ≤ lw) := by
-  match hstep : step cfg sym lw st with
+  have hwl : widthLeftF fx cfg lw 0 (g :: gs) = lw - cfg.leftSym.w := by
+    unfold widthLeftF; simp [hfx]; omega
+  match hstep : step fx cfg sym lw st with
   | .done .stackEmpty => rw [step_done_stackEmpty hstep] at hs; cases hs
   | .done .lineLimit => have := (step_done_lineLimit hstep).2; rw [hl] at this; cases this
   | .next st' =>
@@ -194,22 +204,23 @@ theorem wrap_progress (cfg : Cfg) (sym lw : Nat) (st : St) (style : Nat) (g : G)
     | push style' gs' rest' hs' hl' hfit =>
       rw [hs] at hs'; cases hs'
       rw [h0] at hfit
-      cases hfit with
-      | inl h => omega
-      | inr h => exact absurd ⟨by omega, Or.inl h.2⟩ hnf
+      rcases hfit with h | ⟨h1, h2 | h3⟩
+      · omega
+      · exact absurd ⟨by omega, Or.inl h2⟩ hnf
+      · exact absurd ⟨by omega, Or.inr (Or.inr h3)⟩ hnf
     | nl style' gs' rest' hs' hl' heq hnl =>
       rw [hs] at hs'; cases hs'
       rw [h0] at heq
-      exact absurd ⟨by omega, Or.inr hnl⟩ hnf
-    | split0 style' gs' rest' hs' hl' hge' hnf' hw =>
+      exact absurd ⟨by omega, Or.inr (Or.inl hnl)⟩ hnf
+    | split0 style' gs' rest' hs' hl' hge' hnf' hw hns =>
       rw [hs] at hs'; cases hs'
-      rw [h0] at hw
+      rw [h0, hwl] at hw
       omega
     | splitk style' gs' rest' hs' hl' hge' hnf' hw =>
       rw [hs] at hs'; cases hs'
-      simp only [hs, clusterCount, h0, Nat.zero_add]
+      simp only [hs, clusterCount, h0, hwl]
       by_cases hfit : g.w + cfg.leftSym.w ≤ lw
-      · have := takeFit_progress ((gsWidth (g :: gs) - (gsWidth (g :: gs) - lw)) - cfg.leftSym.w) g gs (by omega)
+      · have := takeFit_progress (lw - cfg.leftSym.w) g gs (by omega)
         simp only [List.length_cons] at this ⊢
         constructor
         · intro _; exact hfit
@@ -220,28 +231,31 @@ theorem wrap_progress (cfg : Cfg) (sym lw : Nat) (st : St) (style : Nat) (g : G)
         · intro h; omega
         · intro h; exact absurd h hfit
 
+example : noFixes.forceProgress = false ∧ ¬ (gsWidth [⟨"日", 2⟩, ⟨"本", 2⟩] = 2 ∧ PerfectRest noFixes []) := by
+  refine ⟨rfl, ?_⟩
+  intro ⟨h, _⟩
+  simp [gsWidth] at h
+
+/-- **wrap_progress_forced.** With the progress repair (notes/fix-wrap-progress.diff) every
+iteration decreases the termination measure, whatever the widths. -/
+theorem wrap_progress_forced (fx : Fixes) (hfx : fx.forceProgress = true) (cfg : Cfg) (sym lw : Nat)
+    (st st' : St) (h : step fx cfg sym lw st = .next st') : mu st' < mu st :=
+  mu_step_fits (Or.inl hfx) (step_next h)
+
+example : allFixes.forceProgress = true := rfl
+
 /-- **wrap_terminates.** The loop finishes within the fuel the executable model uses (so the
 model — and the code it mirrors — terminates) whenever a line limit is in force, or every
-cluster of the line leaves room for the wrap symbol on a row. -/
+cluster of the line leaves room for the wrap symbol on a row, or the progress repair is in
+the source (then: always). -/
 theorem wrap_terminates (cfg : Cfg) (line : List Sec) (lw fill : Nat) (hint : Option Nat)
-    (h : 0 < effMax cfg lw ∨ Fits cfg lw line) :
+    (h : 0 < effMax cfg lw ∨ Fits cfg lw line ∨ currentFixes.forceProgress = true) :
     ∃ o, wrapFull cfg line lw fill hint = .ok o := by
-  have hloop : ∃ r, loop cfg (symStyleOf fill hint) lw (fuelFor cfg lw line) (initSt line) = some r := by
-    cases h with
-    | inl hp => exact loop_terminates_limited cfg _ lw line hp
-    | inr hf => exact loop_terminates_fits cfg _ lw line hf
-  obtain ⟨r, hr⟩ := hloop
-  cases wrapFull_result cfg line lw fill hint with
-  | inl hh =>
-    unfold wrapFull at hh
-    rw [hr] at hh
-    obtain ⟨o, ho⟩ := finish_no_panic (cfg := cfg) (fill := fill) (sym := symStyleOf fill hint) (lw := lw)
-      (st := r.1) (stop := r.2)
-      ((loop_inv (cfg := cfg) (sym := symStyleOf fill hint) (lw := lw) (fun st => InvR lw st)
-        (fun s s' a hs => invR_step s s' a hs) _ _ r.1 r.2 (invR_init lw line) hr).1)
-    simp only [ho] at hh
-    cases hh
-  | inr ho => exact ho
+  apply wrapFull_ok_of_loop (fx := currentFixes)
+  rcases h with hp | hf | hx
+  · exact loop_terminates_limited _ cfg _ lw line hp
+  · exact loop_terminates_fits _ cfg _ lw line hf
+  · exact loop_terminates_forced _ cfg _ lw line hx
 
 example : Fits defaultCfg 3 [(0, [⟨"a", 1⟩, ⟨"日", 2⟩, ⟨"b", 1⟩])] := by
   intro sec hsec g hg
@@ -254,38 +268,228 @@ example : Fits defaultCfg 3 [(0, [⟨"a", 1⟩, ⟨"日", 2⟩, ⟨"b", 1⟩])] 
 terminating. -/
 theorem wrap_never_panics (cfg : Cfg) (line : List Sec) (lw fill : Nat) (hint : Option Nat) (msg : String) :
     wrapFull cfg line lw fill hint ≠ .error (.panic msg) := by
-  cases wrapFull_result cfg line lw fill hint with
-  | inl h => rw [h]; intro h'; cases h'
-  | inr h => obtain ⟨o, ho⟩ := h; rw [ho]; intro h'; cases h'
+  cases wrapFull_result currentFixes cfg line lw fill hint with
+  | inl h => unfold wrapFull; rw [h]; intro h'; cases h'
+  | inr h => obtain ⟨o, ho⟩ := h; unfold wrapFull; rw [ho]; intro h'; cases h'
 
-/-- **wrap_no_progress (defect, unchanged tree).** A state at the start of a row whose next
-cluster is wider than `line_width − symbol width`, with no line limit, never leaves the loop:
-each iteration emits a row holding only the wrap symbol and returns to the same stack. -/
-theorem wrap_no_progress (cfg : Cfg) (sym lw : Nat) (st : St) (h : Stuck cfg lw st) :
-    ∀ fuel, loop cfg sym lw fuel st = none :=
+/-- **wrap_no_progress (defect of the unrepaired code).** A state at the start of a row whose
+next cluster is wider than `line_width − symbol width`, with no line limit, never leaves the
+loop: each iteration emits a row holding only the wrap symbol and returns to the same stack. -/
+theorem wrap_no_progress (fx : Fixes) (cfg : Cfg) (sym lw : Nat) (st : St) (h : Stuck fx cfg lw st) :
+    ∀ fuel, loop fx cfg sym lw fuel st = none :=
   fun fuel => stuck_never_terminates fuel st h
 
-/-- The concrete witness: one CJK character (width 2), line width 2, default symbols,
+/-- The concrete witness: two CJK characters (width 2 each), line width 2, default symbols,
 `--wrap-max-lines unlimited`. -/
 def hangCfg : Cfg := { defaultCfg with maxLines := 0 }
 def hangLine : List Sec := [(0, [⟨"日", 2⟩, ⟨"本", 2⟩, ⟨"\n", 0⟩])]
 
-theorem wrap_hang_witness :
-    (∀ fuel, loop hangCfg 0 2 fuel (initSt hangLine) = none) ∧
+theorem hang_stuck (fx : Fixes) (hfx : fx.forceProgress = false) : Stuck fx hangCfg 2 (initSt hangLine) := by
+  refine ⟨hfx, by decide, rfl, rfl, 0, ⟨"日", 2⟩, [⟨"本", 2⟩, ⟨"\n", 0⟩], [], rfl, by decide, by decide, by decide, ?_⟩
+  intro ⟨h, _⟩
+  simp [gsWidth] at h
+
+/-- **wrap_hang_witness.** As long as the progress repair is not in the source, `wrap_line`
+does not terminate on the witness (the executable model answers `HANG`; confirmed on the real
+binary by the check). -/
+theorem wrap_hang_witness (hfx : currentFixes.forceProgress = false) :
+    (∀ fuel, loop currentFixes hangCfg 0 2 fuel (initSt hangLine) = none) ∧
     wrapFull hangCfg hangLine 2 0 none = .error .hang := by
-  have hstuck : Stuck hangCfg 2 (initSt hangLine) :=
-    ⟨by decide, rfl, rfl, 0, ⟨"日", 2⟩, [⟨"本", 2⟩, ⟨"\n", 0⟩], [], rfl, by decide, by decide, by decide⟩
+  have hstuck := hang_stuck currentFixes hfx
   refine ⟨fun fuel => stuck_never_terminates fuel _ hstuck, ?_⟩
-  unfold wrapFull
-  rw [stuck_never_terminates (cfg := hangCfg) (sym := symStyleOf 0 none) (lw := 2) _ _ hstuck]
+  unfold wrapFull wrapFullF
+  rw [stuck_never_terminates (fx := currentFixes) (cfg := hangCfg) (sym := symStyleOf 0 none) (lw := 2) _ _ hstuck]
+
+example : noFixes.forceProgress = false := rfl
 
 /-- With a line limit the same input terminates, but every row before the last holds nothing
 but the wrap symbol (the rows the user sees in place of the text). -/
 theorem wrap_junk_rows_witness :
-    wrapLine { defaultCfg with maxLines := 3 } hangLine 2 0 none =
+    (wrapFullF noFixes { defaultCfg with maxLines := 3 } hangLine 2 0 none).map (·.rows) =
       .ok [[(0, []), (0, [⟨Generated.defaultWrapLeftSymbol, 1⟩])],
            [(0, []), (0, [⟨Generated.defaultWrapLeftSymbol, 1⟩])],
            [(0, [⟨"日", 2⟩, ⟨"本", 2⟩, ⟨"\n", 0⟩])]] := by
   rfl
+
+/-- After the repair the witness is wrapped, one character per row. -/
+theorem wrap_hang_witness_repaired :
+    (wrapFullF allFixes hangCfg hangLine 2 0 none).map (·.rows) =
+      .ok [[(0, [⟨"日", 2⟩]), (0, [⟨Generated.defaultWrapLeftSymbol, 1⟩])],
+           [(0, [⟨"本", 2⟩, ⟨"\n", 0⟩])]] := by
+  rfl
+
+/-! ## Block level: which rows are lines, which are continuation rows -/
+
+/-- **aligned_rows.** After `wrap_minusplus_block` (on the per-line row counts `mc`, `pc`):
+the new alignment mentions every row index of each side exactly once and in order; the state
+vectors are, line after line, one "real line" row followed by that line's continuation rows —
+so every hunk line appears exactly once per side, in order, and continuation rows can never
+be taken for lines (they carry no line number, C05). -/
+theorem aligned_rows (al : Align) (mc pc : List Nat) (al' : Align) (ms ps : List Bool)
+    (h : wrapBlock al mc pc = .ok (al', ms, ps)) :
+    al'.filterMap (·.1) = List.range ms.length ∧
+    al'.filterMap (·.2) = List.range ps.length ∧
+    ms = (mc.take (al.filterMap (·.1)).length).flatMap lineStates ∧
+    ps = (pc.take (al.filterMap (·.2)).length).flatMap lineStates :=
+  block_rows h
+
+example : wrapBlock [(some 0, some 0), (some 1, none)] [2, 1] [3] =
+    .ok ([(some 0, some 0), (some 1, some 1), (none, some 2), (some 2, none)],
+         [true, false, true], [true, false, false]) := by rfl
+
+/-- **aligned_rows_paired.** Paired lines start on the same row: if the alignment pairs minus
+line `m` with plus line `p`, the first row of `m` (row `Σ mc[..m]` of the left side) is paired
+with the first row of `p`, and both are "real line" rows. -/
+theorem aligned_rows_paired (al : Align) (mc pc : List Nat) (al' : Align) (ms ps : List Bool)
+    (h : wrapBlock al mc pc = .ok (al', ms, ps))
+    (pre post : Align) (m p : Nat) (hal : al = pre ++ (some m, some p) :: post) :
+    ∃ cm cp, mc[m]? = some cm ∧ pc[p]? = some cp ∧
+      (0 < cm → 0 < cp →
+        (some (mc.take m).sum, some (pc.take p).sum) ∈ al' ∧
+        ms[(mc.take m).sum]? = some true ∧ ps[(pc.take p).sum]? = some true) :=
+  paired_start h hal
+
+/-- **aligned_rows_no_panic.** On a well-formed alignment (every minus index once in order,
+every plus index once in order, no empty entry — what `infer_edits` returns, C06) none of the
+`assert_eq!` / `unwrap_or_else(panic)` / `unreachable!` of the walk fires. -/
+theorem aligned_rows_no_panic (al : Align) (mc pc : List Nat)
+    (hv : ValidAlign al mc.length pc.length) : ∃ r, wrapBlock al mc pc = .ok r :=
+  wrapBlock_ok hv
+
+example : ValidAlign [(some 0, some 0), (some 1, none), (none, some 1)] 2 2 :=
+  ⟨by decide, by decide, by decide⟩
+
+/-! ## Panel geometry and truncation -/
+
+open SideBySide in
+/-- **truncate_width.** `truncate_str` never returns more than `display_width` columns and
+exactly that many when it had to cut — proved for the repaired code
+(notes/fix-truncate-after-cut.diff) and, on the unrepaired code, for text without wide
+clusters. -/
+theorem truncate_width (s : List Item) (dw : Nat) (tail out : List Item)
+    (hok : Generated.truncStopsAfterCut = true ∨ (NoWide s ∧ NoWide tail))
+    (h : truncateStr s dw tail = .ok out) :
+    measure out ≤ dw ∧ (dw < measure s → measure out = dw) :=
+  truncateImplF_width _ s dw tail out hok h
+
+open SideBySide in
+example : NoWide [.ansi "\x1b[31m", .text [⟨"a", 1⟩, ⟨"b", 1⟩], .ansi "\x1b[0m"] :=
+  ⟨by intro g hg; simp at hg; rcases hg with rfl | rfl <;> decide, trivial⟩
+
+open SideBySide in
+/-- **truncate_width is false on the unrepaired code** (defect): after the first cluster
+that does not fit, `break` only leaves the inner loop; a later text run is still appended when
+it fits the stale `used` counter. Witness: `ab日` `ESC[0m` `c` cut to 3 columns gives
+`ab c` — 4 columns, and text from beyond the cut. -/
+theorem truncate_width_false_witness :
+    (truncateImplF false [.text [⟨"a", 1⟩, ⟨"b", 1⟩, ⟨"日", 2⟩], .ansi "\x1b[0m", .text [⟨"c", 1⟩]] 3 []
+      (some Wrap.spaceG)).map measure = .ok 4 := by
+  rfl
+
+open SideBySide in
+/-- **truncate_keeps_escapes.** All escape sequences of the input survive a cut, in order,
+followed by those of the tail (colours are closed properly; C09). -/
+theorem truncate_keeps_escapes (s : List Item) (dw : Nat) (tail out : List Item)
+    (h : truncateStr s dw tail = .ok out) :
+    escapes out = escapes s ∨ escapes out = escapes s ++ escapes tail := by
+  unfold truncateStr truncateImpl truncateImplF at h
+  split at h
+  · cases h; exact Or.inl rfl
+  · simp only at h
+    split at h
+    · cases h
+    · rename_i rt hrt
+      have hrte : escapes rt = escapes tail := by
+        split at hrt
+        · rename_i ht; cases hrt; rw [ht]
+        · split at hrt
+          · cases hrt; rfl
+          · exact truncItems_escapes _ _ _ _ _ _ _ hrt
+      split at h
+      · cases h
+      · rename_i body hbody
+        cases h
+        right
+        rw [escapes_append, truncItems_escapes _ _ _ _ _ _ _ hbody, hrte]
+
+open SideBySide in
+/-- **left_panel_exact.** The left panel (always filled with spaces) is exactly the panel
+width wide on every row, so the right panel starts at the same column on every row; any panel
+is at most the panel width wide. (Same proviso as `truncate_width`.) -/
+theorem left_panel_exact (pw : Nat) (line tail out : List Item) (fill : Fill)
+    (hok : Generated.truncStopsAfterCut = true ∨ (NoWide line ∧ NoWide tail))
+    (h : padPanel pw line tail fill = .ok out) :
+    measure out ≤ pw ∧ (fill = .spaces → measure out = pw) :=
+  padPanel_width pw line tail out fill hok h
+
+open SideBySide in
+/-- **row_width_bound.** A row made of a left panel and a right panel, with the panel widths
+derived from `--width w`, is at most `w` columns wide, and the right panel starts at column
+`w / 2` — for even and odd `w`, with either fill method. -/
+theorem row_width_bound (w : Nat) (ansi : Bool) (l r tail lo ro : List Item) (fill : Fill)
+    (hok : Generated.truncStopsAfterCut = true ∨ (NoWide l ∧ NoWide r ∧ NoWide tail))
+    (hl : padPanel (panelWidths w ansi).1 l tail .spaces = .ok lo)
+    (hr : padPanel (panelWidths w ansi).2 r tail fill = .ok ro) :
+    measure lo = w / 2 ∧ rowWidthOf lo ro ≤ w := by
+  have h1 := padPanel_width _ l tail lo .spaces (by
+    rcases hok with h | h
+    · exact Or.inl h
+    · exact Or.inr ⟨h.1, h.2.2⟩) hl
+  have h2 := padPanel_width _ r tail ro fill (by
+    rcases hok with h | h
+    · exact Or.inl h
+    · exact Or.inr h.2) hr
+  have hp := panelWidths_spec w ansi
+  unfold rowWidthOf
+  have := h1.2 rfl
+  omega
+
+open SideBySide in
+example : panelWidths 17 true = (8, 9) ∧ panelWidths 17 false = (8, 8) ∧ panelWidths 16 true = (8, 8) := by
+  decide
+
+/-! ## Sectioning independence: the defect witnesses
+
+`wrap_line` is run twice on every long line — once with the syntax-highlighting sections,
+once with the diff sections — and the two results are superimposed; this is only sound when
+the row breaks do not depend on where section boundaries fall. -/
+
+def zw : G := ⟨"\u200b", 0⟩
+def c (s : String) : G := ⟨s, 1⟩
+
+/-- Row contents (clusters per row, inserted sections removed). -/
+def contents (o : Out) : List (List String) :=
+  (o.rows.take o.nSym).map (fun r => (r.dropLast.flatMap (·.2)).map (·.s)) ++
+  (o.rows.drop o.nSym).map (fun r => ((r.drop o.nPad).flatMap (·.2)).map (·.s))
+
+/-- **wrap_sectioning_independent is false on the unrepaired code** (defect #18): with a
+zero-width cluster at a row break the `width_left == 0` shortcut sends it to the next row,
+while a section that fits as a whole keeps it on the row. Same text `abcde​fg`, line width 6:
+one section breaks after the zero-width space, two sections break before it. On the real
+binary this is the panic "String mismatch encountered while superimposing style sections". -/
+theorem wrap_sectioning_dependent_witness :
+    (wrapFullF noFixes hangCfg [(0, [c "a", c "b", c "c", c "d", c "e", zw, c "f", c "g"])] 6 0 none).map contents
+      = .ok [["a", "b", "c", "d", "e", "\u200b"], ["f", "g"]] ∧
+    (wrapFullF noFixes hangCfg [(0, [c "a", c "b", c "c", c "d", c "e"]), (1, [zw, c "f", c "g"])] 6 0 none).map contents
+      = .ok [["a", "b", "c", "d", "e"], ["\u200b", "f", "g"]] := by
+  constructor <;> rfl
+
+/-- Even the number of rows depends on the sectioning: `abcdef​` in one section is a perfect
+fit (1 row); with the zero-width space in a section of its own it is split (2 rows) — on the
+real binary the `assert_eq!` "syntax and diff wrapping differs". -/
+theorem wrap_row_count_sectioning_dependent_witness :
+    (wrapFullF noFixes hangCfg [(0, [c "a", c "b", c "c", c "d", c "e", c "f", zw])] 6 0 none).map contents
+      = .ok [["a", "b", "c", "d", "e", "f", "\u200b"]] ∧
+    (wrapFullF noFixes hangCfg [(0, [c "a", c "b", c "c", c "d", c "e", c "f"]), (1, [zw])] 6 0 none).map contents
+      = .ok [["a", "b", "c", "d", "e"], ["f", "\u200b"]] := by
+  constructor <;> rfl
+
+/-- With the repair (notes/fix-wrap-zero-width.diff) the four sectionings agree pairwise. -/
+theorem wrap_sectioning_witness_repaired :
+    (wrapFullF allFixes hangCfg [(0, [c "a", c "b", c "c", c "d", c "e", zw, c "f", c "g"])] 6 0 none).map contents
+      = (wrapFullF allFixes hangCfg [(0, [c "a", c "b", c "c", c "d", c "e"]), (1, [zw, c "f", c "g"])] 6 0 none).map contents ∧
+    (wrapFullF allFixes hangCfg [(0, [c "a", c "b", c "c", c "d", c "e", c "f", zw])] 6 0 none).map contents
+      = (wrapFullF allFixes hangCfg [(0, [c "a", c "b", c "c", c "d", c "e", c "f"]), (1, [zw])] 6 0 none).map contents := by
+  constructor <;> rfl
 
 end C07
